@@ -126,18 +126,25 @@ def run_one(args):
         for pm in ex.path_models:
             if tuple(pm["decisions"]) in viol_paths:
                 continue
-            try:
-                rp = Replayer(pm["model"]).run(mod.HARNESSES[hname], cfg)
-            except BaseException as e:
-                st_bad.append(f"replay crashed: {type(e).__name__}: {e}")
-                continue
-            if rp.exception is not None:
-                st_bad.append(f"concrete run raised {rp.exception}")
-                continue
-            bad = [lab for lab, okk in rp.results if not okk]
-            mism = _compare_observed(pm["observed"], rp.observed)
-            if bad or mism:
-                st_bad.append(dict(failed_checks=bad[:5], observed_mismatch=mism[:5], model=pm["model"]["vars"]))
+            problems = []
+            for cand in [pm] + pm.get("alternatives", []):
+                try:
+                    rp = Replayer(cand["model"]).run(mod.HARNESSES[hname], cfg)
+                except BaseException as e:
+                    problems.append(f"replay crashed: {type(e).__name__}: {e}")
+                    continue
+                if rp.exception is not None:
+                    problems.append(f"concrete run raised {rp.exception}")
+                    continue
+                bad = [lab for lab, okk in rp.results if not okk]
+                mism = _compare_observed(cand["observed"], rp.observed)
+                if bad or mism:
+                    problems.append(dict(failed_checks=bad[:5], observed_mismatch=mism[:5], model=cand["model"]["vars"]))
+                else:
+                    problems = []
+                    break
+            if problems:
+                st_bad.append(problems[0])
             else:
                 st_ok += 1
     out.update(stats=ex.stats, violations=viols, inconclusive=ex.inconclusive[:20], samples=ex.samples[:3],
